@@ -181,6 +181,14 @@ func c19Serve(files *protoregistry.Files, rules []c19Rule, own bool, opts ...lar
 			regerr = err
 			return
 		}
+		// other muxes come to exist beside this one before it registers anything: one configured with another
+		// rule for every method, one not configured at all; a mux binds the rules of its own configuration
+		if _, err := larking.NewMux(larking.ServiceConfigOption(c19Decoy)); err != nil {
+			panic(err)
+		}
+		if _, err := larking.NewMux(); err != nil {
+			panic(err)
+		}
 		files.RangeFiles(func(fd protoreflect.FileDescriptor) bool {
 			sds := fd.Services()
 			for i := 0; i < sds.Len(); i++ {
@@ -237,6 +245,9 @@ func c19Serve(files *protoregistry.Files, rules []c19Rule, own bool, opts ...lar
 	}
 	return strings.Join(toks, "/")
 }
+
+var c19Decoy = &serviceconfig.Service{Http: &annotations.Http{Rules: []*annotations.HttpRule{
+	dynRule{Verb: "POST", Tmpl: "/c19/decoy", Body: "*", Selector: "*"}.toProto()}}}
 
 var c19Own = dynRule{Verb: "POST", Tmpl: "/c19/own", Body: "*"}
 
